@@ -1,3 +1,11 @@
+// Verification hook (built only with `--cfg bma400_verif`): dump (address, recorded byte) of a block
+#[cfg(bma400_verif)]
+macro_rules! verif_regs {
+    ($s:expr; $($f:ident),+) => {
+        [$((crate::registers::ReadReg::addr(&$s.$f), crate::registers::ConfigReg::to_byte(&$s.$f))),+]
+    };
+}
+
 mod accel_config;
 use accel_config::AccConfig;
 mod int_config;
@@ -63,6 +71,33 @@ pub(crate) struct Config {
     gen2int_config: Gen2IntConfig,
     actchg_config: ActChgConfig,
     tap_config: TapConfig,
+}
+
+#[cfg(bma400_verif)]
+impl Config {
+    pub(crate) fn verif_shadow(&self) -> [(u8, u8); 57] {
+        let mut out = [(0u8, 0u8); 57];
+        let mut n = 0;
+        let mut push = |regs: &[(u8, u8)]| {
+            for r in regs {
+                out[n] = *r;
+                n += 1;
+            }
+        };
+        push(&self.acc_config.verif_regs());
+        push(&self.int_config.verif_regs());
+        push(&self.int_pin_config.verif_regs());
+        push(&self.fifo_config.verif_regs());
+        push(&self.auto_lp_config.verif_regs());
+        push(&self.auto_wkup_config.verif_regs());
+        push(&self.wkup_int_config.verif_regs());
+        push(&self.orientch_config.verif_regs());
+        push(&self.gen1int_config.verif_regs());
+        push(&self.gen2int_config.verif_regs());
+        push(&self.actchg_config.verif_regs());
+        push(&self.tap_config.verif_regs());
+        out
+    }
 }
 
 impl Config {
